@@ -285,8 +285,12 @@ func (st *State) assumeWellTyped(t Term, ty types.Type) {
 		}
 	case *types.Interface:
 		// references boxed in an interface value denote allocated objects
-		if t.Sort == SAny {
+		if isAnySort(t.Sort) {
 			reg := st.run.eng.reg
+			if u.NumMethods() > 0 {
+				// the dynamic type of a non-nil interface value implements the interface
+				st.Assume(Or(Eq(t, NilAny), st.run.eng.implementsTerm(st.run, t, ty)))
+			}
 			var fs []Term
 			for _, key := range reg.anyOrder {
 				con := reg.anyCons[key]
